@@ -3,14 +3,22 @@
 From Coq Require Import ZArith.
 From OCI Require Import Machine Checkers.
 From OCI.proofs Require Import ArithOk Trace InvKnown ChkKnown IterBase ChkIter ChkAll.
+From OCI.proofs Require Import GapFree.
 Open Scope N_scope.
 
-Check all_C04 : forall e, src_env e -> forall progs, wf_progs progs -> forall sched,
+Check all_C04 : forall e, src_env e -> fused e -> forall progs, wf_progs progs -> forall sched,
   nowrap (c_labels (exec e (init progs) sched)) ->
   check_prop 4 e (c_trace (exec e (init progs) sched)) (c_labels (exec e (init progs) sched)) = true.
-Theorem c04_linearizable_cursor : forall e, src_env e -> forall progs, wf_progs progs -> forall sched,
+Theorem c04_linearizable_cursor : forall e, src_env e -> fused e -> forall progs, wf_progs progs -> forall sched,
   nowrap (c_labels (exec e (init progs) sched)) ->
   check_prop 4 e (c_trace (exec e (init progs) sched)) (c_labels (exec e (init progs) sched)) = true.
 Proof. exact all_C04. Qed.
 Print Assumptions c04_linearizable_cursor.
 
+(** a wrapped iterator that is not fused: one linearizable cursor, on every run on which the wrapped next() has not yet answered None although elements remain *)
+Theorem c04_linearizable_cursor_until_first_gap : forall e, iter_env e -> forall progs, wf_progs progs -> forall sched,
+  nowrap (c_labels (exec e (init progs) sched)) ->
+  gap_free e (s_calls (c_sh (exec e (init progs) sched))) ->
+  check_prop 4 e (c_trace (exec e (init progs) sched)) (c_labels (exec e (init progs) sched)) = true.
+Proof. exact iter_C04_until_gap. Qed.
+Print Assumptions c04_linearizable_cursor_until_first_gap.
